@@ -1,3 +1,4 @@
+import numpy as np
 import pandas as pd
 import xarray as xr
 from typing_extensions import Self
@@ -285,15 +286,51 @@ class Stacker(Transformer):
         if has_only_one_sample_dim and sample_name in X.dims:
             X = X.rename({sample_name: self.dims_mapping[sample_name][0]})
 
-        ds: DataSet = X.to_unstacked_dataset(feature_name, "variable").unstack()
+        elif sample_name in X.dims:
+            X = X.unstack(sample_name)
+
+        ds: DataSet = self._unstack_feature_to_dataset(X)
         ds = self._reorder_dims(ds)
         return ds
 
     def _unstack_to_dataset_components(self, data: DataArray) -> DataSet:
-        feature_name = self.feature_name
-        ds: DataSet = data.to_unstacked_dataset(feature_name, "variable").unstack()
+        ds: DataSet = self._unstack_feature_to_dataset(data)
         ds = self._reorder_dims(ds)
         return ds
+
+    def _unstack_feature_to_dataset(self, X: DataArray) -> DataSet:
+        """Split the stacked `feature` dimension into the variables of a Dataset.
+
+        Inverse of `Dataset.to_stacked_array`. Only the feature dimension is unstacked,
+        each variable gets back its own feature dimensions, and no other dimension
+        of `X` (e.g. one of length one) is touched.
+        """
+        feature_name = self.feature_name
+        if not self.vars_in:
+            # Stacker fitted before the layout of the Dataset was recorded
+            return X.to_unstacked_dataset(feature_name, "variable").unstack()
+
+        index = X.indexes[feature_name]
+        variables = index.get_level_values("variable")
+        all_feature_dims = self.dims_mapping[feature_name]
+        data_vars = {}
+        for name, dims in self.vars_in.items():
+            feature_dims = [dim for dim in dims if dim in all_feature_dims]
+            positions = np.flatnonzero(variables == name)
+            da = X.isel({feature_name: positions})
+            sub_index = da.indexes[feature_name]
+            da = da.reset_index(feature_name, drop=True)
+            if len(feature_dims) == 1:
+                labels = sub_index.get_level_values(feature_dims[0]).values
+                da = da.assign_coords({feature_name: (feature_name, labels)})
+                da = da.rename({feature_name: feature_dims[0]})
+            else:
+                other_levels = [lvl for lvl in sub_index.names if lvl not in feature_dims]
+                sub_index = sub_index.droplevel(other_levels)
+                coords = xr.Coordinates.from_pandas_multiindex(sub_index, feature_name)
+                da = da.assign_coords(coords).unstack(feature_name)
+            data_vars[name] = da.drop_vars("variable", errors="ignore")
+        return xr.Dataset(data_vars)
 
     def _type_name(self, X):
         """Store data type as a str so it is easily serializable."""
